@@ -166,7 +166,7 @@ def run_case(case):
     elif info.get("exc"):
         tiny = case["cfg"].get("n_particles", 2 * case["target"]["d"]) <= 2 * case["target"]["d"]
         out["violations"].append(dict(property=PROP, oracle="valid.raises", detail=f"valid configuration raised {info['exc']} at {info.get('exc_site')} [{json.dumps(row, sort_keys=True)}]",
-                                      keys=dict(keys, exc=info.get("exc_type"), site=(info.get("exc_site") or "?").split(":")[0], default_n_particles=bool(tiny))))
+                                      keys=dict(keys, exc=info.get("exc_type"), site=(info.get("exc_site") or "?").split(":")[0], default_n_particles=bool(tiny), arm=case.get("arm", "plain"))))
     elif info["completed"] and s is not None:
         run_postconditions(w, s, case["n_total"], PROP, keys)
         out["violations"] = list(w.violations)
@@ -186,6 +186,12 @@ def cases(seed, tier):
     for ri, row in enumerate(rows):
         for k in range(nseeds):
             out.append(row_to_case(row, sch.np_seed(f"c18.{ri}.{k}")))
+    # own arm: legal extreme outputs of the uniform generator (0.0, 1-2^-53) at a seeded ~3% of the draws
+    for ri, row in enumerate(rows):
+        c = row_to_case(row, sch.np_seed(f"c18x.{ri}"))
+        c["rng_extreme"] = dict(rate=0.03, seed=sch.np_seed(f"c18xs.{ri}") % 100000)
+        c["arm"] = "rng_extreme"
+        out.append(c)
     return out
 
 
